@@ -129,7 +129,7 @@ OTHER_TU = '#include "au_single.hh"\nint auv_other_tu() { return static_cast<int
 
 def run(ctx):
     ctx.cov["rule"] = ("(a) random subsets of the 57 unit headers and 9 constant headers x {io, noio} drawn by Hypothesis (sets biased to 0, 1, few, many, all): tools/bin/make-single-file is run "
-                       "from the working tree; the single file must compile with NO Au include path, when included twice in one TU, and in two TUs linked together; a generated API-surface "
+                       "from the working tree; the single file must contain every code line of the independently computed transitive include closure and no project include, must compile with NO Au include path, when included twice in one TU, and in two TUs linked together; a generated API-surface "
                        "program for the subset (round trips, + - % unary-, comparisons, scalar ops, += , prefixes, conversions and checkers, rounding, sqrt, products/quotients, ZERO, "
                        "constants, labels and streaming when io; reps incl. int8/uint8/int16/uint16; inputs from argv) built against the single file prints exactly what it prints "
                        "when built against the multi-header tree; (b) the same program is built under all six compiler/standard configurations: accepted alike, identical output "
@@ -163,6 +163,9 @@ def run(ctx):
             os.makedirs(os.path.join(d, "inc"), exist_ok=True)
             with open(os.path.join(d, "inc", "au_single.hh"), "w") as f:
                 f.write(out)
+            why = check_single_structure(c, out)
+            if why:
+                return ("structure", why, None, None, 1)
             src = program(c, f5_known)
             p = os.path.join(d, "prog.cc")
             open(p, "w").write(src)
@@ -227,7 +230,9 @@ def run(ctx):
                 ctx.inconclusive += 1
             else:
                 d = os.path.dirname(ctx.path("sf/c%d/x" % (base + k)))
-                if kind in ("single", "single_output", "tool"):
+                if kind == "structure":
+                    rep = {"mode": "pyjudge", "judge": "auverif.props.c20:replay_structure", "src": "// structural comparison of the generated single file", "cfg": list(core.CONFIGS[0]), "params": {"case": c}, "no_build": True}
+                elif kind in ("single", "single_output", "tool"):
                     # replay regenerates the single file: a small driver script is not expressible as one TU, so the replay is the multi-step command recorded here
                     rep = {"mode": "pyjudge", "judge": "auverif.props.c20:replay_single", "src": src or "int main(){}", "cfg": list(cfg or core.CONFIGS[0]), "params": {"case": c, "f5_known": f5_known}, "no_build": True}
                 elif kind in ("differential", "rejected"):
@@ -293,6 +298,63 @@ def run(ctx):
     ctx.cov["headers_checked"] = len(hdrs)
     for c in judged[:3]:
         ctx.sample({"units": c["units"][:8], "n_units": len(c["units"]), "constants": c["constants"], "io": c["io"], "reps": c["reps"], "vals": c["vals"]})
+
+
+# ---- independent flattening oracle for the single-file header -----------------------------------------
+
+def _au_tokens(pre_text, want):
+    """token multiset of the preprocessed lines that originate from files selected by want(path)"""
+    import collections, re
+    cur, toks = "", collections.Counter()
+    for ln in pre_text.splitlines():
+        m = re.match(r'# \d+ "([^"]*)"', ln)
+        if m:
+            cur = m.group(1)
+            continue
+        if ln.startswith("#pragma"):
+            continue
+        if want(cur):
+            toks.update(re.findall(r"[A-Za-z_]\w*|\d[\w.']*|\S", ln))
+    return toks
+
+
+def check_single_structure(case, single_text, workdir=None):
+    """independent of how the tool formats its output: the preprocessed token multiset contributed by the single file must equal the one
+    contributed by the project headers when the same selection is included from the multi-header tree (a dropped or duplicated
+    declaration changes it; comments, blank lines, include order and formatting do not)"""
+    import re, tempfile
+    d = workdir or tempfile.mkdtemp(prefix="c20struct", dir=os.path.join(core.VERIF, "build"))
+    os.makedirs(os.path.join(d, "sinc"), exist_ok=True)
+    open(os.path.join(d, "sinc", "au_single.hh"), "w").write(single_text)
+    roots = ["au/au.hh"] + ["au/units/%s.hh" % HEADER_OF[n] for n in case["units"]] + ["au/constants/%s.hh" % c.lower() for c in case["constants"]] + (["au/io.hh"] if case["io"] else [])
+    open(os.path.join(d, "multi.cc"), "w").write("".join('#include "%s"\n' % r for r in roots))
+    open(os.path.join(d, "single.cc"), "w").write('#include "au_single.hh"\n')
+    r1 = core.run_cmd(["g++", "-std=c++14", "-E", "-I" + core.INC, os.path.join(d, "multi.cc")], timeout=300)
+    r2 = core.run_cmd(["g++", "-std=c++14", "-E", "-I" + os.path.join(d, "sinc"), os.path.join(d, "single.cc")], timeout=300)
+    if r1[0] != 0:
+        return None   # multi-header tree itself does not preprocess: judged elsewhere
+    if r2[0] != 0:
+        return "single-file header does not preprocess on its own: %s" % r2[2][-300:]
+    inc = os.path.realpath(core.INC)
+    tm = _au_tokens(r1[1], lambda f: os.path.realpath(f).startswith(inc + os.sep))
+    ts = _au_tokens(r2[1], lambda f: f.endswith("au_single.hh"))
+    if tm != ts:
+        missing = [(t, n - ts[t]) for t, n in tm.items() if ts[t] < n][:6]
+        extra = [(t, n - tm[t]) for t, n in ts.items() if tm[t] < n][:6]
+        return "single-file header is not the multi-header tree flattened: tokens missing %s, extra %s" % (missing, extra)
+    if re.search(r'^\s*#\s*include\s*"au/', single_text, re.M):
+        return "single-file header still includes a project file"
+    return None
+
+
+def replay_structure(params, rc, out, err):
+    import tempfile
+    d = tempfile.mkdtemp(prefix="c20replay", dir=os.path.join(core.VERIF, "build"))
+    inc, msg = _build_single(params["case"], d)
+    if inc is None:
+        return True, msg
+    why = check_single_structure(params["case"], open(os.path.join(inc, "au_single.hh")).read())
+    return why is not None, why or "single file contains every code line of its transitive closure"
 
 
 # ---- stand-alone replays (multi-step reproductions driven from the replay file) ---------------------
